@@ -23,18 +23,26 @@ N == Len(Log)
 
 ToSet(seq) == {seq[j] : j \in 1..Len(seq)}
 Plants(r) == r.shape.plants
-Shape(r) == [kind |-> r.shape.kind, var |-> r.shape.var, plants |-> r.shape.plants]
+Shape(r) == [kind |-> r.shape.kind, var |-> r.shape.var, plants |-> r.shape.plants, cte |-> r.shape.cte, batch |-> r.shape.batch]
 Req(r) == Required(Shape(r))
 Withheld(r) == IF r.w.p = "" THEN {} ELSE {Perm(r.w.t, r.w.p)}
 IsCtl(r) == r.w.p = ""
 Ran(r) == r.executed \/ r.changed
+IsBatch(r) == r.shape.kind = "batch"
+Kw(k) == CASE k = "insert" -> "INSERT" [] k = "update" -> "UPDATE" [] k = "delete" -> "DELETE" [] OTHER -> "SELECT"
+(* batches: r.execk = first keyword of every statement the server handed to   *)
+(* the database in that request; statement j ran iff its keyword is among them *)
+RanStmt(r, j) == Kw(r.shape.batch[j]) \in ToSet(r.execk)
+Forbidden(r) == {j \in 1..Len(r.shape.batch) : Withheld(r) \cap Own(r.shape.batch[j]) # {}}
 
 (* domain: the statement is executable at all (it ran for the caller holding  *)
 (* everything); otherwise the case decides nothing                            *)
-WF(r) == LET c == Log[r.ctl] IN c.rec = "req" /\ IsCtl(c) /\ c.executed /\ c.status = 200
+WF(r) == LET c == Log[r.ctl] IN /\ c.rec = "req" /\ IsCtl(c) /\ c.executed /\ c.status = 200
+                                /\ (IsBatch(c) => \A j \in 1..Len(c.shape.batch) : RanStmt(c, j))
 
 (* clause 1: executes only if every demanded permission is held               *)
-PostDeny(r) == (Withheld(r) \cap Req(r) # {}) => ~Ran(r)
+PostDeny(r) == IF IsBatch(r) THEN \A j \in Forbidden(r) : ~RanStmt(r, j)      \* each statement of a batch for itself
+               ELSE (Withheld(r) \cap Req(r) # {}) => ~Ran(r)
 (* clause 2: no table is read or modified without the corresponding check     *)
 (* being made (table permissions; the DSN-administrator check is not logged   *)
 (* by the server and is covered by clause 1 only)                             *)
@@ -50,7 +58,7 @@ Key(r) == r.ep \o "/" \o r.shape.kind \o "/" \o PosKey(Shape(r)) \o "/"
 
 (* reference cross-check (spec vs SQLite's own EXPLAIN): a disagreement means *)
 (* Required itself is wrong for this shape => no verdict                      *)
-XOk(r) == (IsCtl(r) /\ r.executed /\ r.xplain) =>
+XOk(r) == (IsCtl(r) /\ r.executed /\ r.xplain /\ ~IsBatch(r)) =>
             /\ (ToSet(r.xopen) \cup ToSet(r.xwrite)) \cap {"S", "U"} = NestedBase(Shape(r))
             /\ ("sqlite_master" \in ToSet(r.xwrite)) <=> IsSchema(Shape(r))
             /\ (r.shape.kind \in {"insert", "update", "delete"} => "T" \in ToSet(r.xwrite))
